@@ -397,7 +397,8 @@ ForceAllScoped(cx, names, w) ==
   ELSE LET Pos(x) == CHOOSE i \in 1..Len(cx.c.svnames) : cx.c.svnames[i] = x
            nm == CHOOSE x \in names : \A y \in names : Pos(x) <= Pos(y)
            r == ForceScopedName(cx, nm, w)
-       IN IF ~r.ok THEN r ELSE ForceAllScoped(cx, names \ {nm}, r.w)
+           rest == names \ {nm}
+       IN IF ~r.ok THEN r ELSE ForceAllScoped(cx, rest, r.w)
 
 \* ================================================================== the machine
 NoLoc == <<-1, -1>>
@@ -421,7 +422,7 @@ CheckGlobals(c, i, glob) ==
     IF d.name \in DOMAIN glob THEN
        IF d.q \in {"star", "plus"} /\ glob[d.name].t # "list" THEN [ok |-> FALSE, kind |-> "ExpectedList"]
        ELSE CheckGlobals(c, i + 1, glob)
-    ELSE IF d.has_default THEN CheckGlobals(c, i + 1, MapPut(glob, d.name, VStr(d.default)))
+    ELSE IF d.has_default THEN LET g1 == MapPut(glob, d.name, VStr(d.default)) IN CheckGlobals(c, i + 1, g1)
     ELSE [ok |-> FALSE, kind |-> "MissingGlobalVariable"]
 
 SuppliedGlobals(c) == [n \in DOMAIN c.globals |-> FromJ(c.globals[n])]
